@@ -119,16 +119,21 @@ def is_placeholder(st):
 
 
 def admitted_cats(s, cats, pruning, use_beta, theta_odd):
-    """the beam restated from the property; beta = exp(-theta_odd/16) keeps every decision 1/16 away from the threshold"""
+    """the beam restated from the property; beta = exp(-theta_odd/16) keeps every decision 1/16 away from the threshold.  Tags that TIE with the
+    last tag inside pruning_size count as admitted too: which of several equally scored tags the implementation keeps is not the property's business"""
     out = []
     for i in range(len(s.tokens)):
         row = sorted(((float(s.tag[i, c]), c) for c in range(len(cats))), reverse=True)
         best = row[0][0]
-        keep = []
-        for sc, c in row[:pruning]:
+        keep, last = [], None
+        for k, (sc, c) in enumerate(row):
             if use_beta and not (sc - best > -theta_odd / 16.0):
                 break
+            if k >= pruning and sc != last:
+                break
             keep.append(cats[c])
+            if k < pruning:
+                last = sc
         out.append(keep)
     return out
 
